@@ -61,6 +61,7 @@ MetasHH == {M(1, 1, 1, 1)}
 ValsHH == {2}
 MetasGenS == {M(1, 1, 1, 1), M(1, 1, 1, 2), M(1, 1, 2, 1)}
 MetasMock == {M(1, 1, 1, 1), M(1, 1, 1, 2), M(1, 1, 2, 1)}
+MetasMockG == {M(1, 1, 1, 1), M(1, 1, 1, 2)}
 ValsExh  == 0 .. 4          \* E = 2, two epochs: every interior and boundary instant
 ValsDeep == 0 .. 6          \* three epochs
 ValsGen  == 1 .. 3
